@@ -345,13 +345,72 @@ def rule_gr5(prog):
     return r
 
 
+def rule_gr6(prog):
+    """leaves: the callbacks build AtomicProposition(<token text>) and
+    Bool(True / False).  Whatever the text of the token is -- an identifier,
+    or any quoted string -- the constructor must return: an exception raised
+    there is not one of lark's two input errors, so it leaves __call__ as it
+    is (ValueError, RuntimeError, a VisitError wrapping it ...)."""
+    r = RuleResult('R-GR-6', 'the leaf constructors the callbacks use '
+                   'accept every token text')
+    n = 0
+    for lang in ('PL', 'CTLS', 'CTL', 'LTL'):
+        al = prog.alphabet(LANGS[lang])
+        for cname, args in (('AtomicProposition',
+                             [Sym('text', ('b', 'str'), ('apname',))]),
+                            ('Bool', [Const(True)]), ('Bool', [Const(False)])):
+            ci = al.get(cname)
+            if ci is None:
+                raise AnalysisError('%s.%s not found' % (lang, cname))
+            I = Interp(prog, Hooks(), rule='R-GR-6')
+            path = I.new_path()
+            init = prog.method(ci, '__init__')
+            res = I.construct(ci, list(args), [], path,
+                              init.node if init else None)
+            n += 1
+            raising = [(p, v) for (p, v) in res if isinstance(v, Raise) and
+                       not v.implicit]
+            rets = [(p, v) for (p, v) in res if not isinstance(v, Raise)]
+            r.inst(lang=lang, constructor=ci.qn, argument=repr(args[0]),
+                   returning_paths=len(rets), raising_paths=len(raising))
+            if not rets:
+                raise Inconclusive('R-GR-6', '%s(%r) has no returning path' %
+                                   (ci.qn, args[0]), ci.where()
+                                   if hasattr(ci, 'where') else '')
+            for (p, v) in raising:
+                c = I.exc_class(v.exc)
+                conds = [('' if pol else 'not ') + repr(cc)[:80]
+                         for (cc, pol) in p.pc]
+                r.fail(Finding(
+                    PROP, 'R-GR-6', I.where(v.node, ci.module), ci.qn,
+                    'leaf-raises:%s:%s' % (cname, c.name if c else '?'),
+                    '%s.%s(%s) raises %s when %s: a %s parser given such a '
+                    'token raises that exception (or lark\'s wrapper of it) '
+                    'instead of returning the formula or a positioned '
+                    'ParserError' % (lang, cname, 'token text' if cname ==
+                                     'AtomicProposition' else args[0].v,
+                                     c.name if c else v.exc, conds, lang)),
+                    witness=Tup([cc for (cc, pol) in p.pc]))
+            if not raising:
+                r.ok()
+    floor('R-GR-6', 'leaf constructor calls interpreted', n, 12)
+    return r
+
+
 def run(prog, tier, seed):
     G = c09.grammars(prog)
     T = Attempts()
     r1 = T(c09.rule_rt3, prog, G, PROP, 'R-GR-1')
     r2 = T(c09.rule_rt2, prog, G, PROP, 'R-GR-2')
     results = T.results(r1, r2, T(rule_gr3, prog, G), T(rule_gr4, prog, G),
-                        T(rule_gr5, prog))
+                        T(rule_gr5, prog), T(rule_gr6, prog))
+    # lark's LALR builder resolves a conflict silently (shift wins): only a
+    # conflict-free grammar is parsed as written, so that the parser accepts
+    # exactly the strings the documented productions derive
+    from ..report import adopt
+    results = results + adopt(T.results(T(c09.rule_rt0, prog, G)), PROP,
+                              'the parser accepts the language of its '
+                              'grammar only if the grammar is conflict-free')
     expl = ('Every grammar (text obtained by abstract interpretation, '
             'productions expanded by lark) is typed: the least fixpoint of '
             'the possible root operators per nonterminal shows that no '
